@@ -34,7 +34,7 @@ def str_lit(s: str) -> str:
 
 class FuncTr:
     def __init__(self, known_funcs=(), ctors=None, option_exprs=(), self_fields=None,
-                 qmode=False, method_proj=(), aliases=None):
+                 qmode=False, method_proj=(), aliases=None, return_state=()):
         self.known = set(known_funcs)          # names of other translated functions
         self.ctors = ctors or {}               # Python class name -> Coq constructor
         self.option_exprs = set(option_exprs)  # ast.unparse() texts that are Optional objects
@@ -42,6 +42,7 @@ class FuncTr:
         self.qmode = qmode                     # ints are Q, '/' allowed
         self.binders = dict(aliases or {})     # unparse text -> variable (aliases, Some-binders)
         self.method_proj = set(method_proj)    # zero-arg methods treated as projections
+        self.return_state = list(return_state)  # state variables paired with every returned value (methods that update self)
 
     # ---------- expressions ----------
     def num(self, n):
@@ -340,6 +341,8 @@ class FuncTr:
         if isinstance(s, ast.Return):
             if s.value is None:
                 raise Unsupported("bare return")
+            if self.return_state:
+                return "(" + ", ".join([self.expr(s.value)] + self.return_state) + ")"
             return self.expr(s.value)
         if isinstance(s, ast.Assign):
             if len(s.targets) != 1:
